@@ -354,6 +354,7 @@ class Package:
         "heapq._largest": ("heapq.nlargest", "coroutine", 0),
         "itertools.tee_peer": ("itertools.Tee.__init__", "asyncgen", 0),
         "itertools._repeat": ("itertools.zip_longest", "asyncgen", 0),
+        "itertools.chain._chain_iterator": ("itertools.chain.__init__", "asyncgen", 0),
     }
 
     def _fallback(self, short: str) -> Optional[Unit]:
